@@ -37,7 +37,11 @@ pub struct ReplicaPlan {
 pub fn gen_pool_long(src: &mut Src, max_ops: usize) -> Pool {
     let n = 3 + src.below(max_ops.saturating_sub(2));
     let n_keys = 1 + src.below(4) as u64;
-    let nodes: Vec<u8> = if src.chance(1, 2) { vec![1] } else { vec![1, 2] };
+    let nodes: Vec<u8> = match src.below(3) {
+        0 => vec![1],
+        1 => vec![1, 2],
+        _ => vec![1, 2, 200],
+    };
     let mut t = *src.pick(&[100_000u64, 3_700, 1_000_000]);
     let mut ops = vec![];
     let mut counter = 0u16;
@@ -60,7 +64,11 @@ pub fn gen_pool_long(src: &mut Src, max_ops: usize) -> Pool {
 pub fn gen_pool_gaps(src: &mut Src, max_ops: usize) -> Pool {
     let n = 2 + src.below(max_ops.saturating_sub(1));
     let n_keys = 1 + src.below(4) as u64;
-    let nodes: Vec<u8> = if src.chance(1, 2) { vec![1] } else { vec![1, 2] };
+    let nodes: Vec<u8> = match src.below(3) {
+        0 => vec![1],
+        1 => vec![1, 2],
+        _ => vec![1, 2, 200],
+    };
     let base = *src.pick(&[100_000u64, 7_200]);
     let mut ops = vec![];
     let mut used = std::collections::BTreeSet::new();
